@@ -335,6 +335,82 @@ def tr_inner(fn: ast.FunctionDef):
                 root_test=root_test), self_name
 
 
+def tr_export_struct(fn: ast.FunctionDef) -> dict:
+    """The deprecated generator export(), structurally:
+         if isinstance(self._value, list):
+             if <root test>:  for kv in self._value: yield from kv.export()
+             else:            yield ...; ...; yield from (PREFIX + line for kv in self._value for line in kv.export()); yield ...
+         else:                yield ...
+       -> root test, yields before/after the children, the constant prefix, yields of a leaf.  Fail closed."""
+    self_name = fn.args.args[0].arg
+    fs = FStr(self_name, {})
+
+    def is_self_attr(n, attr):
+        return isinstance(n, ast.Attribute) and n.attr == attr and _is_name(n.value, self_name)
+
+    def is_export_call(c, var):
+        return isinstance(c, ast.Call) and isinstance(c.func, ast.Attribute) and c.func.attr == fn.name \
+            and _is_name(c.func.value, var) and not c.args and not c.keywords
+
+    def yields(stmts, allow_children):
+        pre, post, prefix = [], [], None
+        for st in stmts:
+            if isinstance(st, ast.Assert):
+                continue
+            if not isinstance(st, ast.Expr):
+                raise _err(st, f'unrecognised statement in export(): {type(st).__name__}')
+            v = st.value
+            if isinstance(v, ast.Constant) and isinstance(v.value, str):
+                continue        # a docstring-like expression statement
+            if isinstance(v, ast.Yield) and v.value is not None:
+                (pre if prefix is None else post).append(fs.pieces(v.value))
+                continue
+            if isinstance(v, ast.YieldFrom) and allow_children:
+                g = v.value
+                if prefix is not None:
+                    raise _err(st, 'two child generators in export()')
+                if not (isinstance(g, ast.GeneratorExp) and len(g.generators) == 2
+                        and all(not x.ifs and not x.is_async for x in g.generators)):
+                    raise _err(st, 'children are not yielded as (PREFIX + line for kv in self._value for line in kv.export())')
+                g1, g2 = g.generators
+                if not (isinstance(g1.target, ast.Name) and is_self_attr(g1.iter, '_value')
+                        and isinstance(g2.target, ast.Name) and is_export_call(g2.iter, g1.target.id)):
+                    raise _err(st, 'child generator does not iterate kv.export() for kv in self._value')
+                e = g.elt
+                if not (isinstance(e, ast.BinOp) and isinstance(e.op, ast.Add) and _is_name(e.right, g2.target.id)
+                        and isinstance(e.left, ast.Constant) and isinstance(e.left.value, str)):
+                    raise _err(st, 'child lines are not CONSTANT + line')
+                prefix = [('Lit', e.left.value)] if e.left.value else []
+                continue
+            raise _err(st, 'unrecognised expression statement in export()')
+        return pre, prefix, post
+
+    body = _strip_doc(fn.body)
+    if len(body) != 1 or not isinstance(body[0], ast.If):
+        raise _err(fn, 'export() body is not a single if/else')
+    top = body[0]
+    t = top.test
+    if not (isinstance(t, ast.Call) and _is_name(t.func, 'isinstance') and len(t.args) == 2
+            and is_self_attr(t.args[0], '_value') and _is_name(t.args[1], 'list')):
+        raise _err(top, 'export(): top test is not isinstance(self._value, list)')
+    blk = [x for x in top.body if not isinstance(x, ast.Assert)]
+    if len(blk) != 1 or not isinstance(blk[0], ast.If):
+        raise _err(top, 'export(): block branch is not a single if/else on the root test')
+    root_test = classify_root_test(blk[0].test, self_name)
+    rb = [x for x in blk[0].body if not isinstance(x, ast.Assert)]
+    ok_root = (len(rb) == 1 and isinstance(rb[0], ast.For) and isinstance(rb[0].target, ast.Name)
+               and is_self_attr(rb[0].iter, '_value') and not rb[0].orelse and len(rb[0].body) == 1
+               and isinstance(rb[0].body[0], ast.Expr) and isinstance(rb[0].body[0].value, ast.YieldFrom)
+               and is_export_call(rb[0].body[0].value.value, rb[0].target.id))
+    if not ok_root:
+        raise _err(blk[0], 'export(): root branch is not `for kv in self._value: yield from kv.export()`')
+    head, prefix, tail = yields(blk[0].orelse, True)
+    if prefix is None:
+        raise _err(blk[0], 'export(): named-block branch does not yield its children')
+    leaf, lp, lpost = yields(top.orelse, False)
+    return dict(root_test=root_test, head=head, prefix=prefix, tail=tail, leaf=leaf + lpost)
+
+
 def classify_root_test(t: ast.AST, self_name: str) -> str:
     """The test that sends a list-valued node to the 'root' branch (children only, no header, no braces).
     `self._real_name is None` -> RTIsNone; a truth test `not self._real_name` -> RTFalsy (also true of the name '');
@@ -569,6 +645,7 @@ def translate() -> tuple[str, dict]:
     braces, s1 = tr_serialise(f_ser, f_in)
     inner, s2 = tr_inner(f_in)
     yields, s3 = tr_export(f_exp)
+    xs = tr_export_struct(f_exp)
     psites = tr_parse(f_parse)
     stores, muts, info = [], [], []
     for fn, sn in ((f_ser, s1), (f_in, s2), (f_exp, s3)):
@@ -602,12 +679,21 @@ def translate() -> tuple[str, dict]:
          f'  p_single_block_guard := {"true" if psites["single_block_guard"] else "false"} |}}.', '',
          '(* f-strings yielded by the deprecated Keyvalues.export() *)',
          'Definition gen_export_yields : list (list piece) := [' + '; '.join(coq_pieces(p) for _, p in yields) + '].', '',
+         '(* the same generator, structurally *)',
+         'Definition gen_expcfg : expcfg := {|',
+         f'  x_root_test := {xs["root_test"]};',
+         '  x_head := [' + '; '.join(coq_pieces(p) for p in xs['head']) + '];',
+         f'  x_prefix := {coq_pieces(xs["prefix"])};',
+         '  x_tail := [' + '; '.join(coq_pieces(p) for p in xs['tail']) + '];',
+         '  x_leaf := [' + '; '.join(coq_pieces(p) for p in xs['leaf']) + '] |}.', '',
          '(* line numbers of stores to / mutating calls on tree objects inside serialise, _serialise, export *)',
          'Definition gen_tree_stores : list N := ' + coq_chars(''.join(chr(x) for x in stores)) + '.',
          'Definition gen_tree_mut_calls : list N := ' + coq_chars(''.join(chr(x) for x in muts)) + '.', '']
     root_test = inner.pop('root_test')
     side = {'templates': {k: [list(p) for p in v] for k, v in {**braces, **inner}.items()},
             'root_test': root_test, 'parse_sites': psites,
+            'export_struct': {k: (v if isinstance(v, str) else [list(map(list, y)) if k != 'prefix' else list(y) for y in v])
+                              for k, v in xs.items()},
             'export_yields': [[ln, [list(p) for p in ps]] for ln, ps in yields],
             'escapes': esc['table'], 'escape_re_excluded': esc['excl'],
             'escape_multiline_re_excluded': esc.get('excl_multi'),
